@@ -195,6 +195,9 @@ class Event:
         return M.strip_generics(self.name) if isinstance(self.name, str) else str(self.name)
 
 
+PANIC_ENTRY = re.compile(r'(^|::)(panic_fmt|panic|panic_display|panic_str|panic_explicit|panic_nounwind|begin_panic|expect_failed|unwrap_failed|panic_any|unreachable_display|panic_cold_explicit|panic_cold_display)$')
+
+
 class Call:
     __slots__ = ('callee', 'short', 'args', 'retty', 'span', 'fn', 'depth', 'frame', 'argops')
 
@@ -1022,6 +1025,11 @@ class Exec:
 
                 def cont(q, val, dest=dest, ret=ret):
                     if ret is None:
+                        if PANIC_ENTRY.search(call.short):
+                            # explicit panic!/unreachable!/expect: the same outcome as a failed MIR assert
+                            q.events.append(Event('panic', call.short, call.args, None, span, fr.depth))
+                            self.end_path(q, 'panic', call.short)
+                            return
                         q.events.append(Event('diverge', call.short, call.args, None, span, fr.depth))
                         self.end_path(q, 'diverge', call.short)
                         return
